@@ -794,7 +794,7 @@ def drive_sparse(tier):
     q = tier == 'quick'
     return {'kind': 'drive', 'name': 'drive_sparse', 'cmd': 'drive', 'trace_module': 'CoreTrace',
             'trace_cfg': {'invariants': ['TraceReport']},
-            'x': 'big=2,histories=%d,maxn=2047' % (4 if q else 24), 'timeout': 900 if q else 5400}
+            'x': 'big=2,histories=%d,maxn=16000' % (4 if q else 24), 'timeout': 900 if q else 5400}
 
 
 SPARSE_RULE = (' Sparse tall forests (stage drive_sparse): scripted histories on forests of 512-2047 leaves in which a partial forest '
@@ -1010,3 +1010,8 @@ PLAN['C10']['stages'] = (lambda f: (lambda tier, seed: f(tier, seed) + [ops('ops
 PLAN['C10']['rule'] += (' Stage ops_missing (spec/ProofOps.tla): map forests created from the bare roots of every state - full and non-full - are asked '
                         'to remember leaves that are older than they are (Ingest, Verify with remember); they must then track them at their true '
                         'positions.')
+
+
+PLAN['C06']['stages'] = (lambda f: (lambda tier, seed: f(tier, seed) + [drive_sparse(tier)]))(PLAN['C06']['stages'])
+PLAN['C06']['rule'] += SPARSE_RULE + (' The moves of tall subtrees are undone and applied again; every fourth history uses a subtree 12 rows tall '
+                                      '(4096 leaves), where TLC judges the roots and the partial forests are compared with the full ones.')
